@@ -142,6 +142,18 @@ CHECKS = {
         technique='bounded runtime contracts on scope analysis with symtable and a language-reference scope model '
                   'as oracles',
         ref='DESIGN.md section 4 C16'),
+    'C17': dict(
+        category='exploration',
+        text='Bounded, and the bound is the property\'s own ("up to a length bound"): every sequence of <= 3 (thorough '
+             '4) pattern items over 3 atoms and 18 quantified forms x every element sequence of length <= 4 (thorough 6) '
+             'over {a, b}: accept/reject and per-quantifier capture counts equal re.fullmatch on the encoding; '
+             'back-references; plus layout independence (tree vs re-laid-out tree vs pure AST), repeat-call '
+             'independence, search == filter(match, walk), own-AST match and single-leaf difference, shared-sub-pattern '
+             'state and search pre-filter checks. Known finding F-C17-1 (sublist quantifiers).',
+        note='Oracle: Python\'s re module. The rewind / pre-filter contracts of DESIGN C17/P are not registered.',
+        technique='bounded exhaustive enumeration of quantifier sequences against re.fullmatch + runtime contracts '
+                  'on match/search',
+        ref='DESIGN.md section 4 C17'),
     'C20': dict(
         category='proof',
         text='Proof of the option store algebra for ALL option mappings (abstract keys/values, z3 arrays): '
